@@ -127,6 +127,13 @@ def _worker(args):
     modname, task = args
     mod = sys.modules.get(modname) or __import__(modname, fromlist=['x'])
     try:
+        if task and task[0] == '@slice':       # one interleaved slice of a structural shard (see families.slice_t3_tasks)
+            from mc import families
+            families.SLICE = (task[1], task[2])
+            try:
+                return mod.run_task(task[3])
+            finally:
+                families.SLICE = None
         return mod.run_task(task)
     except Exception:
         r = Result()
@@ -151,9 +158,16 @@ def run_tasks(mod, tasks, deadline=None):
     with ctx.Pool(NPROC) as pool:
         it = pool.imap_unordered(_worker, [(mod.__name__, t) for t in tasks], chunksize=1)
         done = 0
-        for r in it:
-            agg.merge(r)
-            done += 1
+        while done < len(tasks):
+            try:
+                r = it.next(timeout=5.0)     # wake up regularly: the budget also ends a run whose remaining tasks are long
+            except mp.TimeoutError:
+                r = None
+            except StopIteration:
+                break
+            if r is not None:
+                agg.merge(r)
+                done += 1
             if deadline and time.time() > deadline and done < len(tasks):
                 completed = False
                 pool.terminate()
@@ -246,7 +260,8 @@ def main(mod, argv=None):
         try:
             extra = mod.finish(agg, args.tier) or {}
         except HarnessError as ex:
-            harness_problem = str(ex)
+            if completed: harness_problem = str(ex)
+            else: extra = {'vacuity_guards': f'not all met because the run was capped ({ex})'}
 
     replay_dir = os.path.join(EVID, 'replay')
     os.makedirs(replay_dir, exist_ok=True)
